@@ -39,18 +39,18 @@ SPEC = dict(
                  "same process is woken 1000 times the same way (and at least 4 s); such verdicts must reproduce 3/3"],
     units=[
         pbt("c10_queues", "harness/c10_queues.cpp", dict(
-            bq_model=P(5000, 25000, 3, 4),
-            ring_model=P(5000, 25000, 4, 4),
-            bq_conc=P(120, 600, 5, 8, extra=_NOSHRINK),
-            bq_wake=P(80, 400, 4, 8, extra=_NOSHRINK),
+            bq_model=P(8000, 80000, 3, 3, t_secs=420),
+            ring_model=P(8000, 80000, 4, 3, t_secs=420),
+            bq_conc=P(180, 3000, 5, 5, extra=_NOSHRINK, t_secs=420),
+            bq_wake=P(120, 2000, 4, 5, extra=_NOSHRINK, t_secs=420),
         )),
         pbt("c10_spsc_asan", "harness/c10_spsc.cpp", dict(
-            spsc=P(150, 1500, 4, 8, extra=_NOSHRINK),
+            spsc=P(250, 4000, 4, 8, extra=_NOSHRINK, t_secs=420),
         )),
         pbt("c10_tsan", "harness/c10_spsc.cpp", dict(
-            spsc=P(80, 700, 8, 8, extra=_NOSHRINK),
-            bq_conc=P(40, 400, 4, 4, extra=_NOSHRINK),
-            bq_wake=P(25, 200, 4, 4, extra=_NOSHRINK),
+            spsc=P(120, 2000, 8, 8, extra=_NOSHRINK, t_secs=420),
+            bq_conc=P(60, 1200, 4, 4, extra=_NOSHRINK, t_secs=420),
+            bq_wake=P(40, 600, 4, 4, extra=_NOSHRINK, t_secs=420),
         ), san="tsan", tsan_scope=["ring_buffer.hpp", "blocking_queue.hpp"]),
     ],
 )
